@@ -833,5 +833,45 @@ theorem estimate_simple_time_scale (glsFn : GlsFn) (c : Rat) (t : List Pt) (dt :
       simp only [h2, if_false] at this
       simpa using this
 
+/-! ## Strengthening round H: iteration budget, kymograph kinds, mixed groups -/
+
+/-- `determine_optimal_points` with its default budget and integer frame indices is `detOpt` (the search every other
+    theorem is about); `detOptIter` only adds the storage check and the budget. -/
+theorem det_opt_iter_default (op : OptPts) (t : List Pt) : detOptIter op t true 100 = detOpt op t := rfl
+
+/-- frame indices that are not stored as integers are refused before anything is computed -/
+theorem det_opt_iter_float (op : OptPts) (t : List Pt) (k : Nat) : detOptIter op t false k = .error "TypeError" := rfl
+
+/-- a kymograph integrated over disjoint time windows: every valid method is refused -/
+theorem estimate_on_kymo_disjoint (op : OptPts) (g : GlsFn) (t : List Pt) (dt : Rat) (m : String) (L : Option Int)
+    (lv vlv : Option Rat) (hm : m = "cve" ∨ m = "gls" ∨ m = "ols") :
+    estimateOnKymo op g t dt .disjoint m L lv vlv = .error "NotImplementedError" := by
+  unfold estimateOnKymo
+  rcases hm with h | h | h <;> subst h <;> simp
+
+example : estimateOnKymo optimalPointsT glsUnmodelled [] 1 .disjoint "cve" none none none = .error "NotImplementedError" := by
+  decide +kernel
+
+/-- on a kymograph WITHOUT a motion blur constant the covariance-based estimate is still Vestergaard's `D`: it equals the
+    `D` of `_cve` for every admissible blur constant `R` (the closed form of `D` does not contain `R`). -/
+theorem estimate_on_kymo_noblur_value (op : OptPts) (g : GlsFn) (t : List Pt) (dt R : Rat) (L : Option Int)
+    (vlv : Option Rat) (r : Est × Option Int × Bool) (c : Cve)
+    (h : estimateOnKymo op g t dt .noBlur "cve" L none vlv = .ok r) (hc : cve t dt R none none = .ok c) :
+    r.1.value = c.D := by
+  unfold estimateOnKymo at h
+  unfold cve cveCore at hc
+  simp only [ne_eq, String.reduceEq, not_true_eq_false, false_and, if_false, if_true] at h
+  split at hc
+  · cases hc
+  · split at hc
+    · cases hc
+    · rename_i h3
+      simp only [h3, if_false] at h
+      cases h
+      cases hc
+      rfl
+
+example : (estimateOnKymo optimalPointsT glsUnmodelled [(0, 0), (1, 1), (2, 3)] 1 .noBlur "cve" none none none).toBool = true ∧
+    (cve [(0, 0), (1, 1), (2, 3)] 1 (1 / 6) none none).toBool = true := by decide +kernel
 
 end Verif.C09
